@@ -2,7 +2,7 @@ use std::convert::TryInto;
 use std::ops::RangeInclusive;
 
 use chrono::prelude::Datelike;
-use chrono::{Duration, NaiveDate, Weekday};
+use chrono::{NaiveDate, Weekday};
 
 use opening_hours_syntax::rules::day::{self as ds, Date, Month};
 
@@ -500,7 +500,7 @@ impl DateFilter for ds::WeekDayRange {
                         .filter(date, ctx);
                 }
 
-                let date = date - Duration::days(*offset);
+                let date = ds::add_days_saturating(date, offset.saturating_neg());
                 let pos_from_start = (date.day() as u8 - 1) / 7;
                 let pos_from_end = (count_days_in_month(date) - date.day() as u8) / 7;
                 let range_u8 = (*range.start() as u8)..=(*range.end() as u8);
@@ -515,7 +515,7 @@ impl DateFilter for ds::WeekDayRange {
                     ds::HolidayKind::School => &ctx.holidays.school,
                 };
 
-                let date = date - Duration::days(*offset);
+                let date = ds::add_days_saturating(date, offset.saturating_neg());
                 calendar.contains(date)
             }
         }
@@ -532,14 +532,14 @@ impl DateFilter for ds::WeekDayRange {
                     ds::HolidayKind::School => &ctx.holidays.school,
                 };
 
-                let date_with_offset = date - Duration::days(*offset);
+                let date_with_offset = ds::add_days_saturating(date, offset.saturating_neg());
 
                 if calendar.contains(date_with_offset) {
                     date.succ_opt()?
                 } else {
                     calendar
                         .first_after(date_with_offset)
-                        .map(|following| following + Duration::days(*offset))
+                        .map(|following| ds::add_days_saturating(following, *offset))
                         .unwrap_or_else(|| DATE_END.date())
                 }
             }),
